@@ -3,6 +3,7 @@
 -/
 import PyndlProofs.SeqSchedule
 import PyndlProofs.Queue
+import PyndlProofs.Interleave
 
 namespace Pyndl.C02
 open Pyndl List
@@ -58,6 +59,28 @@ theorem schedule_independent_openmp {parts : List (List Nat)} (hp : PartsOk part
     rowFn n (execSteps alpha β₁ β₂ lam n w s) o
       = rwLearn (fun _ => alpha) β₁ β₂ lam (fun o => rowFn n w o) files.flatten o :=
   openmp_schedule_independent hp files n nOut alpha β₁ β₂ lam hrows hcues w hw s hv k hk o ho
+
+/-- `ValidThreading` is not an ad-hoc notion: EVERY operational interleaving of
+    the part programs (repeatedly run the next micro-step of any kernel call
+    that still has one) is a valid schedule … -/
+theorem every_interleaving_is_valid (parts : List (List Nat)) (files : List (List (Event Nat Nat)))
+    (s : List MicroStep) (h : Interleave (threadingPrograms parts files) s) :
+    ValidThreading parts files s :=
+  interleave_is_valid_threading parts files s h
+
+/-- … hence: for every operational interleaving of the kernel calls, every
+    owned row holds the specification. -/
+theorem threading_any_interleaving {parts : List (List Nat)} (hp : PartsOk parts)
+    (files : List (List (Event Nat Nat))) (n nOut : Nat) (alpha β₁ β₂ lam : R)
+    (hrows : ∀ k, k < parts.length → ∀ o ∈ parts.getD k [], o < nOut)
+    (hcues : ∀ e ∈ files.flatten, ∀ c ∈ e.cues, c < n)
+    (w : Array R) (hw : w.size = n * nOut)
+    (s : List MicroStep) (h : Interleave (threadingPrograms parts files) s)
+    (k : Nat) (hk : k < parts.length) (o : Nat) (ho : o ∈ parts.getD k []) :
+    rowFn n (execSteps alpha β₁ β₂ lam n w s) o
+      = rwLearn (fun _ => alpha) β₁ β₂ lam (fun o => rowFn n w o) files.flatten o :=
+  threading_schedule_independent hp files n nOut alpha β₁ β₂ lam hrows hcues w hw s
+    (interleave_is_valid_threading parts files s h) k hk o ho
 
 /-- two valid schedules — e.g. different thread counts or interleavings — give
     the same row, whatever they are -/
